@@ -695,10 +695,16 @@ def hsla_to_rgb(hsla_color, background=None):
     elif isinstance(hsla_color, (tuple, list)):
         if len(hsla_color) == 4:
             h, s, l, a = hsla_color
-            h = float(h) % 360
-            s = float(s)
-            l = float(l)
-            a = float(a)
+            try:
+                h = float(h) % 360
+                s = float(s)
+                l = float(l)
+                a = float(a)
+            except TypeError:
+                # float(None), float([..]) ...: an invalid colour, not a programming error
+                raise ValueError(
+                    "Invalid HSLA tuple/list - components must be numbers or numeric strings"
+                )
         else:
             raise ValueError("Invalid HSLA tuple/list - must have 4 components")
     else:
